@@ -95,7 +95,11 @@ func genError(tp *simrt.Tape) *conformancev1.Error {
 	case 4:
 		e.Message = proto.String("100% broken: a\tb\nc & d + e")
 	case 5:
-		e.Message = proto.String(strings.Repeat("long ", 60))
+		if tp.Bool(1, 4, "err.trailingspace") {
+			e.Message = proto.String("trailing space ")
+		} else {
+			e.Message = proto.String(strings.TrimSpace(strings.Repeat("long ", 60)))
+		}
 	}
 	nd := tp.Choose(4, "err.ndetails")
 	for i := 0; i < nd; i++ {
